@@ -1,5 +1,7 @@
 import Compass.Drv.Proto
+import Compass.Drv.JsonProto
 import Compass.Model.Graph
+import Compass.Model.GraphIO
 
 namespace Compass.Drv.C15
 open Compass Compass.Proto
@@ -23,8 +25,8 @@ def vertexRow : P (Row (Vertex Float)) := do
   | _ => failure
 
 def fileP (row : P (Row ρ)) : P (CsvFile ρ) := do
-  let p ← bool; let l ← nat; let rows ← listOf row
-  pure { present := p, lines := l, rows := rows }
+  let p ← bool; let l ← nat; let h ← bool; let rows ← listOf row
+  pure { present := p, lines := l, hasHeader := h, rows := rows }
 
 def natList (l : List Nat) : String :=
   joinSp (toString l.length :: l.map toString)
@@ -46,6 +48,9 @@ def exOut (f : β → String) : Except NetErr β → String
 def tripletsOut (l : List (Nat × Nat × Nat)) : String :=
   joinSp (toString l.length :: l.map (fun (a, e, b) => joinSp [toString a, toString e, toString b]))
 
+def attrsOut (l : List (Vertex Float × Edge Float × Vertex Float)) : String :=
+  joinSp (toString l.length :: l.map (fun (a, e, b) => joinSp [vertexOut a, edgeOut e, vertexOut b]))
+
 def edgeProbe (g : Graph Float) (e : Nat) : String :=
   joinSp ["e",
     exOut edgeOut (g.getEdge e),
@@ -63,12 +68,14 @@ def vertexProbe (g : Graph Float) (v : Nat) : String :=
     natList (g.incidentEdges v .forward),
     natList (g.incidentEdges v .reverse),
     exOut tripletsOut (g.incidentTripletIds v .forward),
-    exOut tripletsOut (g.incidentTripletIds v .reverse)]
+    exOut tripletsOut (g.incidentTripletIds v .reverse),
+    exOut attrsOut (g.incidentTripletAttributes v .forward),
+    exOut attrsOut (g.incidentTripletAttributes v .reverse)]
 
 def graphOut (g : Graph Float) : String :=
   let nE := g.nEdges
   let nV := g.nVertices
-  let pv := max nV g.adj.length
+  let pv := max (max nV g.adj.length) g.rev.length
   joinSp (["ok", toString nE, toString nV, toString g.adj.length, toString g.rev.length]
     ++ (List.range (nE + 1)).map (edgeProbe g)
     ++ (List.range (pv + 1)).map (vertexProbe g)
@@ -79,9 +86,97 @@ def loadErrOut : LoadErr → String
   | .dataset => "err dataset"
   | .csv => "err csv"
 
+def tableRowP : P (Row Nat) := do
+  let t ← next
+  match t with
+  | "b" => pure .bad
+  | "r" => do let x ← nat; pure (.ok x)
+  | _ => failure
+
+def pairP : P (Nat × Nat) := do
+  let k ← nat; let v ← nat
+  pure (k, v)
+
+/-- an adjacency entry given as the sequence of `insert(k, v)` calls that builds it -/
+def adjP : P AdjMap := do
+  let ins ← listOf pairP
+  pure (ins.foldl (fun m (kv : Nat × Nat) => adjInsert kv.1 kv.2 m) [])
+
+def edgeP : P (Edge Float) := do
+  let i ← nat; let s ← nat; let d ← nat; let x ← float
+  pure { edgeId := i, src := s, dst := d, distance := x }
+
+def vertexP : P (Vertex Float) := do
+  let i ← nat; let x ← float; let y ← float
+  pure { vertexId := i, x := x, y := y }
+
+def entryP : P (Option (String × Cell Float)) := do
+  let t ← next
+  match t with
+  | "e" => pure none
+  | "k" => do
+    let k ← JsonProto.str
+    let u ← optOf nat
+    let f ← optOf float
+    pure (some (k, { asUsize := u, asF32 := f }))
+  | _ => failure
+
+def visitErrOut : VisitErr → String
+  | .entry => "err entry"
+  | .parseId => "err parse-id"
+  | .parseX => "err parse-x"
+  | .parseY => "err parse-y"
+  | .incomplete => "err incomplete"
+  | .notMap => "err not-map"
+  | .trailing => "err trailing"
+
+def cfgErrOut : CfgErr → String
+  | .expectedField k p => joinSp ["cfg", "field", JsonProto.hexOfStr k, JsonProto.hexOfStr p]
+  | .expectedType k t => joinSp ["cfg", "type", JsonProto.hexOfStr k, JsonProto.hexOfStr t]
+  | .fileNotFound f k p => joinSp ["cfg", "notfound", JsonProto.hexOfStr f, JsonProto.hexOfStr k, JsonProto.hexOfStr p]
+  | .serde => "cfg serde"
+  | .graph e => "cfg graph " ++ loadErrOut e
+
 def case : P String := do
   let op ← next
   match op with
+  | "graph" => do
+    -- a `Graph` value assembled field by field (nothing relates the four fields)
+    let _descr ← next
+    let adj ← listOf adjP
+    let rev ← listOf adjP
+    let edges ← listOf edgeP
+    let vertices ← listOf vertexP
+    endOfLine
+    pure (graphOut { adj := adj, rev := rev, edges := edges, vertices := vertices })
+  | "build" => do
+    let params ← JsonProto.json
+    let eIsFile ← bool
+    let vIsFile ← bool
+    let ef ← fileP edgeRow
+    let vf ← fileP vertexRow
+    endOfLine
+    match graphBuilderBuild params eIsFile vIsFile ef vf with
+    | .error e => pure (cfgErrOut e)
+    | .ok g => pure (graphOut g)
+  | "vrow" => do
+    let _descr ← next
+    let strict ← bool
+    let input ← optOf (listOf entryP)
+    endOfLine
+    match decodeVertex input strict with
+    | .error e => pure (visitErrOut e)
+    | .ok v => pure ("ok " ++ vertexOut v)
+  | "ctor" => do
+    let what ← next
+    match what with
+    | "edge" => do let e ← edgeP; endOfLine; pure (edgeOut e)
+    | "edge-default" => do endOfLine; pure (edgeOut (Edge.default : Edge Float))
+    | "vertex" => do
+      let v ← vertexP; endOfLine
+      -- `Vertex::new`, then `x()`, `y()` and `to_tuple_underlying()`
+      pure (joinSp [vertexOut v, floatOut v.x, floatOut v.y])
+    | _ => failure
   | "load" => do
     let _descr ← next   -- how the files were encoded (gzip, column order, …): not modelled
     let nE ← optOf nat
@@ -93,12 +188,17 @@ def case : P String := do
     | .error e => pure (loadErrOut e)
     | .ok g => pure (graphOut g)
   | "table" => do
-    -- per-edge table: `n` rows of raw 64-bit payloads, and the edge ids to look up
+    -- per-edge table: rows of raw 64-bit payloads (or undecodable), and the edge ids to look up
     let _descr ← next
-    let t ← listOf nat
+    let readable ← bool
+    let rows ← listOf tableRowP
     let probes ← listOf nat
     endOfLine
-    pure (joinSp (toString t.length :: probes.map (fun e => optOut toString (tableRow t e))))
+    match readTable readable rows with
+    | .error _ => pure (if readable then s!"err cb {callbackCount rows}" else "err")
+    | .ok t =>
+      pure (joinSp (["ok", toString t.length, "cb", toString (callbackCount rows)]
+        ++ probes.map (fun e => optOut toString (tableRow t e))))
   | _ => failure
 
 def run (line : String) : String := Proto.run case line
